@@ -459,7 +459,7 @@ theorem panoc_satisfies_inner_contract (pb : ProblemCF α) (n m : Nat)
     · set P := Pf c.y c.sigma with hP
       set sh := (headStep P pr' (stop c) (oot c) s').1 with hsh
       have hgood := (headStep_good P pr' (stop c) (oot c) s' hinv.good).1
-      have hgh := headStep_gh P pr' (stop c) (oot c) s' hinv.grad
+      have hgh := headStep_gh P pr' (stop c) (oot c) s' hinv.good hinv.grad
       have hloop := headStep_inv False True P pr' (stop c) (oot c) s' hinv.loop
       have hsz : Sized n m sh.curr := headStep_sized hPs pr' (stop c) (oot c) s' hinv.sized
       have hst := headStep_status P pr' (stop c) (oot c) s'
@@ -469,6 +469,7 @@ theorem panoc_satisfies_inner_contract (pb : ProblemCF α) (n m : Nat)
       rw [hfields.1] at hc
       have hok := exitBlock_ok P pr' sh (headStep P pr' (stop c) (oot c) s').2.1
         (headStep P pr' (stop c) (oot c) s').2.2 c.x c.y c.sigma c.errBuf hgood
+        (headStep_yhatValid P pr' (stop c) (oot c) s' hinv.good)
       have hw : (exitBlock P pr' sh (headStep P pr' (stop c) (oot c) s').2.1
           (headStep P pr' (stop c) (oot c) s').2.2 c.x c.y c.sigma c.errBuf).wrote = true := by
         rw [hok.2.1, hc]; rfl
